@@ -21,7 +21,7 @@ RULE = ('histories put x; (other puts / restores / purges of other entries / rem
         'was removed; distinct = (entry kind, trash-dir kind, sort, scope kind, parent removed)')
 ASSUMPTIONS = ['the premise is a successful trash-put: names that trash-put cannot trash (not valid UTF-8) are judged by C16',
                'listing lines are attributed to entries by (date, path); identical lines are interchangeable']
-PROBES = ['failed-attempt-then-retry', 'trash-dir-through-cross-volume-symlink', 'roundtrip-ok', 'parent-recreated', 'volume-trash', 'top-trash', 'custom-trash-dir', 'sort-none', 'sort-path', 'sort-date',
+PROBES = ['roundtrip-across-devices', 'payload-in-trash-differs-from-the-original', 'failed-attempt-then-retry', 'trash-dir-through-cross-volume-symlink', 'roundtrip-ok', 'parent-recreated', 'volume-trash', 'top-trash', 'custom-trash-dir', 'sort-none', 'sort-path', 'sort-date',
           'name-with-newline', 'from-ancestor', 'from-root', 'by-path-argument', 'collision-suffix']
 TECHNIQUE = 'deterministic simulation of put/.../restore histories; snapshot equality of the original subtree and frame diff of the restore step'
 LEVEL_TEXT = 'seeded round-trip law over names x kinds x layouts x sort modes x intervening histories, on the real commands end to end'
@@ -69,6 +69,16 @@ def gen(rng):
             steps.append(['l', home + '/tlink', vol + '/customT'])
             tdopt = home + '/tlink'
         put_argv += ['--trash-dir', tdopt]
+    xdev = False
+    if tdopt is None and vol != '/' and rng.random() < 0.15:
+        # the volume's own trash directories cannot be used and the home fallback is enabled: the entry travels to the home trash
+        # and back by copy + delete across devices, and still comes back identical
+        for t_ in (vol + '/.Trash', vol + '/.Trash-%d' % uid):
+            steps.append(['rm', t_])
+            steps.append(['f', t_, 'not a directory', 0o600])
+        put_argv.append('--home-fallback')
+        env['TRASH_ENABLE_HOME_FALLBACK'] = '1'
+        xdev = True
     put_argv += ['--', x if rng.random() < 0.5 else nm]
     procs = [{'argv': put_argv, 'env': env, 'cwd': d, 'uid': uid}]
     removed_parent = False
@@ -86,7 +96,7 @@ def gen(rng):
             removed_parent = True
         else:
             procs.append({'argv': ['trash-list'], 'env': env, 'cwd': '/', 'uid': uid})
-    if vol != '/' and L['trash'][vol]['top'] == 'absent' and tdopt is None and rng.random() < 0.35:
+    if vol != '/' and L['trash'][vol]['top'] == 'absent' and tdopt is None and not xdev and rng.random() < 0.35:
         # the layout changes after x was trashed: the administrator creates the shared sticky $topdir/.Trash, later puts go
         # to .Trash/$uid - x, in .Trash-$uid, must remain restorable (both directories of the volume are read)
         procs.append({'foreign': [['d', vol + '/.Trash', 0o1777]]})
@@ -112,7 +122,7 @@ def gen(rng):
         'world': {'mounts': L['mounts'], 'steps': steps},
         'procs': procs,
         'dirsalt': rng.randrange(1 << 30),
-        'note': {'scope': scope, 'kind': kind},
+        'note': {'scope': scope, 'kind': kind, 'xdev': xdev},
         'failed_first_attempt': failed_first,
     }
 
@@ -138,11 +148,21 @@ def check(sim, case, st):
     st.ops += r.nops
     snap1 = sim.snap()
     outs, _p = OP.judge(sim.root, snap0, snap1, named, mounts)
-    if outs[0].state != 'trashed' or r.exit != 0:
+    loc = named[0].loc
+    T = N = None
+    if outs[0].state == 'trashed' and r.exit == 0:
+        T, N = outs[0].tdir, outs[0].name
+    elif r.exit == 0 and loc and loc not in snap1:
+        # trash-put reports success and the entry left its place, but no new payload is an identical copy: if exactly one new
+        # pair is described as coming from this location it is the entry (altered on its way in) - the round trip is judged on it
+        cand = [(T_, N_) for T_ in ML.trash_dirs_in(snap1) for N_ in ML.payloads(snap1, T_) - ML.payloads(snap0, T_)
+                if OP._info_names_loc(sim.root, snap1, T_, N_, loc, mounts)[0]]
+        if len(cand) == 1:
+            T, N = cand[0]
+            st.probes['payload-in-trash-differs-from-the-original'] += 1
+    if T is None:
         st.probes['premise-not-met:put-did-not-trash'] += 1      # C01/C16/C17 judge failing puts
         return []
-    loc = named[0].loc
-    T, N = outs[0].tdir, outs[0].name
     orig = Wd.subtree(snap0, loc)
     put_dates = r.clock
     between = 0
@@ -255,6 +275,8 @@ def check(sim, case, st):
         bad('restore-exit', 'restore of index %d exited %s; stderr %s' % (ci, rr.exit, rr.errs[-300:]))
     if not res:
         st.probes['roundtrip-ok'] += 1
+        if case.get('note', {}).get('xdev'):
+            st.probes['roundtrip-across-devices'] += 1
     if any(p in parents for p in added):
         st.probes['parent-recreated'] += 1
     tk = 'home'
